@@ -12,5 +12,6 @@ Definition SN : strops := {|
   s_empty := [];
   s_add := @app N;
   s_rpartition := py_rpartition N.eqb;
-  s_lit := map Z.to_N |}.
+  s_lit := map Z.to_N;
+  s_lower := map (fun c => if ((65 <=? c) && (c <=? 90))%N then (c + 32)%N else c) |}.
 
